@@ -33,7 +33,7 @@ type shMethod struct {
 	calls  map[string]bool
 }
 
-func recvName(fd *ast.FuncDecl) string {
+func shRecvName(fd *ast.FuncDecl) string {
 	if fd.Recv != nil && len(fd.Recv.List) == 1 && len(fd.Recv.List[0].Names) == 1 {
 		return fd.Recv.List[0].Names[0].Name
 	}
@@ -51,7 +51,7 @@ func isRecvField(e ast.Expr, recv string) (string, bool) {
 }
 
 func shAnalyse(fd *ast.FuncDecl) *shMethod {
-	recv := recvName(fd)
+	recv := shRecvName(fd)
 	m := &shMethod{name: fd.Name.Name, writes: map[string]bool{}, reads: map[string]bool{}, calls: map[string]bool{}}
 	alias := map[string]string{} // local name -> field it aliases (map alias or pointer into entries)
 
@@ -421,7 +421,7 @@ func genStringHash() string {
 
 	// Delete: hit block, erase, loop, rebuilt slice
 	del := need("Delete")
-	dr := recvName(del)
+	dr := shRecvName(del)
 	renum := ".unknown " + leanStr("no re-numbering loop found")
 	erases, cut := false, false
 	ast.Inspect(del.Body, func(n ast.Node) bool {
@@ -467,7 +467,7 @@ func genStringHash() string {
 	})
 
 	put := need("Put")
-	pr := recvName(put)
+	pr := shRecvName(put)
 	putHit := false
 	ast.Inspect(put.Body, func(n ast.Node) bool {
 		if is, ok := n.(*ast.IfStmt); ok && is.Init != nil && src(is.Init) == "p, replaced = "+pr+".index[key]" && src(is.Cond) == "replaced" {
@@ -477,7 +477,7 @@ func genStringHash() string {
 	})
 
 	cp := need("Copy")
-	cr := recvName(cp)
+	cr := shRecvName(cp)
 	copyFresh, copyFrozen := false, "none"
 	if n := len(cp.Body.List); n == 5 {
 		copyFresh = sameSrc(cp.Body.List[:4],
@@ -494,16 +494,16 @@ func genStringHash() string {
 	}
 
 	mg := need("Merge")
-	mr := recvName(mg)
+	mr := shRecvName(mg)
 	mergeOK := sameSrc(mg.Body.List, "merged = "+mr+".Copy()", "merged.PutAll(other)", "return")
 	pa := need("PutAll")
-	par := recvName(pa)
+	par := shRecvName(pa)
 	putAllOK := sameSrc(pa.Body.List, "for $i, $e := range other.(*stringHash).entries { "+par+".Put($e.key, $e.value) }")
 	g := need("Get")
-	gr := recvName(g)
+	gr := shRecvName(g)
 	getOK := sameSrc(g.Body.List, "if p, ok := "+gr+".index[key]; ok { return "+gr+".entries[p].value, true }", "return nil, false")
 	inc := need("Includes")
-	ir := recvName(inc)
+	ir := shRecvName(inc)
 	incOK := sameSrc(inc.Body.List, "_, ok := "+ir+".index[key]", "return ok")
 
 	newOK := sameSrc(findFunc(f, "", "NewStringHash").Body.List,
@@ -531,7 +531,7 @@ func genStringHash() string {
 	fmt.Fprintf(&b, "  deleteErasesKey := %s\n", leanBool(erases))
 	fmt.Fprintf(&b, "  deleteCutsEntry := %s\n", leanBool(cut))
 	fmt.Fprintf(&b, "  putMiss := %s\n", missPath(put, pr, "value"))
-	fmt.Fprintf(&b, "  ciaMiss := %s\n", missPath(need("ComputeIfAbsent"), recvName(need("ComputeIfAbsent")), "value"))
+	fmt.Fprintf(&b, "  ciaMiss := %s\n", missPath(need("ComputeIfAbsent"), shRecvName(need("ComputeIfAbsent")), "value"))
 	fmt.Fprintf(&b, "  putHitReplacesValue := %s\n", leanBool(putHit))
 	fmt.Fprintf(&b, "  copyFrozen := %s\n", copyFrozen)
 	fmt.Fprintf(&b, "  copyFresh := %s\n", leanBool(copyFresh))
